@@ -44,10 +44,10 @@ CLAIMED = {
         'differentials, and the differentials are justified by first-order expansions with a nilpotent scalar, including Jacobi\'s formula '
         'det(A + eps V) = det A + eps tr(adj(A) V); the executable rules over series of list matrices are their Cauchy products; the reverse rules of '
         'lu, cholesky, qr (square and tall reduced) and eigh (distinct eigenvalues) are the adjoints for all tangent tuples satisfying the linearised defining equations; '
-        'reductions and replications (all shapes, axes, repetition patterns): gather and scatter-add with the same in-range index list are transposed maps, hence pb_sum (axis / all), pb_tile, pb_diag and the scatter along the index list of x[ix] (any basic index expression), of a transposition (any axis permutation) and of a reshape are the adjoints of sum, tile, diag, indexing, transposition and reshape on every coefficient slice and, by bilinearity of the Cauchy pairing, at every order. On every run: the adjoint identity on the implementation for '
+        'reductions and replications (all shapes, axes, repetition patterns): gather and scatter-add with the same in-range index list are transposed maps, hence pb_sum (axis / all), pb_tile, pb_diag and the scatter along the index list of x[ix] (any basic index expression), of a transposition (any axis permutation), of a reshape and of NumPy broadcasting (any compatible shapes; summing the adjoint over the broadcast axes) are the adjoints of sum, tile, diag, indexing, transposition and reshape on every coefficient slice and, by bilinearity of the Cauchy pairing, at every order. On every run: the adjoint identity on the implementation for '
         'generated programs (F\'v from forward propagation alone, evaluation point != recording point, D<=4, P<=3, all orders), every xbar '
         'coefficient of rational scalar programs with buffers against the Coq model, UTPM.pb_dot / pb_inv / pb_solve / pb_lu / pb_cholesky / pb_qr called directly against the '
-        'executable rules (exact over Qc), UTPM.pb_sum / pb_tile / pb_diag / pb_trace called directly (fresh and accumulating) and through the tracer against the proved rules of Reduce.v (equality over Qc), reverse sweeps through recorded views against the scatter along the model index list, and documented unsupported operations raising.',
+        'executable rules (exact over Qc), UTPM.pb_sum / pb_tile / pb_diag / pb_trace called directly (fresh and accumulating) and through the tracer against the proved rules of Reduce.v (equality over Qc), reverse sweeps through recorded views and through broadcasting arithmetic against the scatter(-add) along the model index lists, and documented unsupported operations raising.',
    note=NOTE_COMMON + 'The array-level rules are proved one by one (dot, outer, inv, solve, trace, transpose, det, logdet), not as part of the tape theorem; the pullbacks of svd, eig, full / wide qr, eigh with repeated eigenvalues and fft are covered by the adjoint-identity predicate only.',
    technique='Coq proof (potential-function invariant over the tape with heaps) + adjoint-identity predicate on the implementation + model correspondence',
    design='4/C03'),
